@@ -354,6 +354,61 @@ def ev_sampler(case):
 EVALUATORS = {"fold": ev_fold, "limits": ev_limits, "sampler": ev_sampler}
 
 
+def ev_outside_start(case):
+    """A starting point that lies OUTSIDE the bounds (by a little, relative to the width - not relative to the magnitude of
+    the bounds): the constructor either refuses it, or nothing outside the limits is ever evaluated or recorded."""
+    from inference.mcmc import EnsembleSampler, HamiltonianChain, PcaChain
+
+    kind, boxname, d, rel = case["sampler"], case["box"], case["d"], case["rel"]
+    lo, hi = SBOX[boxname][0][:d], SBOX[boxname][1][:d]
+    w = hi - lo
+    tol = np.array([ulp_tol(a, b) for a, b in zip(lo, hi)])
+    fails, tags = [], set()
+    seen = []
+
+    def P(t):
+        seen.append(np.asarray(t, dtype=float).reshape(-1).copy())
+        return spost((np.asarray(t) - lo) / w)
+
+    def G(t):
+        seen.append(np.asarray(t, dtype=float).reshape(-1).copy())
+        return sgrad((np.asarray(t) - lo) / w) / w
+
+    n = 0
+    for side in ("below", "above"):
+        start = (lo + 0.37 * w).copy()
+        start[0] = lo[0] - rel * w[0] if side == "below" else hi[0] + rel * w[0]
+        del seen[:]
+        try:
+            if kind == "PcaChain":
+                ch = PcaChain(posterior=P, start=start.copy(), widths=w.copy(), bounds=(lo.copy(), hi.copy()), display_progress=False)
+            elif kind == "HamiltonianChain":
+                ch = HamiltonianChain(posterior=P, grad=G, start=start.copy(), bounds=(lo.copy(), hi.copy()), epsilon=0.3, inverse_mass=(w ** 2).copy(), display_progress=False)
+                ch.steps = 3
+            else:
+                pos = np.array([start, lo + 0.4 * w, lo + 0.9 * w, lo + 0.6 * w, lo + np.array([0.2, 0.8][:d]) * w])
+                ch = EnsembleSampler(posterior=P, starting_positions=pos, bounds=(lo.copy(), hi.copy()), display_progress=False)
+        except (ValueError, AssertionError):
+            tags.add(f"outside-start:{kind}:refused")
+            n += 1
+            continue
+        # accepted: then the limits must hold for everything that is evaluated or recorded from now on
+        ch.rng = np.random.default_rng(3)
+        with lib("advance-after-accepted-outside-start"):
+            ch.advance(3)
+            S = np.asarray(ch.get_sample(burn=0))
+        n += 1
+        bad = [t for t in list(seen) + list(S) if np.any(t < lo - tol) or np.any(t > hi + tol)]
+        if bad:
+            fails.append(fail(f"outside-start/{kind}/accepted-and-evaluated-or-recorded-outside-the-bounds",
+                              f"start {start.tolist()} ({side} by {rel:g} widths) was accepted; {len(bad)} evaluated/recorded points outside [{lo.tolist()},{hi.tolist()}], e.g. {bad[0].tolist()}", config=case, side=side))
+        tags.add(f"outside-start:{kind}:accepted")
+    return {"fails": fails, "n": n, "states": n, "transitions": n, "tags": tags}
+
+
+EVALUATORS["outside_start"] = ev_outside_start
+
+
 def run(ck):
     q = ck.quick
     offs = [0.0, 0.31, 0.5, 0.77]
@@ -385,6 +440,8 @@ def run(ck):
                     if where in ("inside", "corner") and (d == 2 or not q):
                         sc.append(dict(c, loaded=True))
     ck.run_cases("sampler", sc, chunk=1)
+    ck.run_cases("outside_start", [dict(sampler=k, box=b, d=d, rel=r) for k in ("PcaChain", "HamiltonianChain", "EnsembleSampler") for b in SBOX for d in (1, 2)
+                                   for r in (1e-1, 1e-3, 1e-6)])
     ck.rule = ("(i) fold maps on the lattice lower+(k+offset)*width/8, |k|<=400, for 8 boxes of different magnitude/sign; (ii) all call sequences of length %d over "
                "{set_boundaries x3, remove, set_non_negative(True/False)} with the reference limit model, every state probed with 9 overshooting raw proposals; "
                "(iii) samplers x boxes x start points (inside, walls, corner) x d, every posterior/gradient argument and recorded sample, draws up to 50 widths, "
